@@ -135,7 +135,7 @@ RULE = ("B: arguments/results of the two numba kernels captured inside split_dis
 def run(ctx):
     res = Result()
     stats = new_stats()
-    run_batch(ctx, ctx.n(40, 1500), ctx.n(160, 6000), 1, res, stats)
+    run_batch(ctx, ctx.n(40, 800), ctx.n(160, 4000), 1, res, stats)
     res.rule = RULE
     res.extra = dict(input_distribution=stats,
                      hypothesis_hit_rates={k: f"{v}/{stats['hyp_n']}" for k, v in stats["hyp"].items()})
